@@ -113,7 +113,9 @@ def reiteration(ck, w):
                 ok = obs(rep) == obs(ref) and all(c[0] == NOT_READY for c in rep["calls"][:-1])
                 if not ok:
                     bad += 1
-                    ck.violation("C13:reiteration:not-ready-during-rule-evaluation",
+                    symptom = "silently-ignored-read-becomes-undefined" if (rep["rc"] == 0 and len(rep["calls"]) == 1 and
+                                                                         [m[:2] for m in rep["t"] if m[1] != "default:u8"] == [m[:2] for m in ref["t"] if m[1] != "default:u8"]) else "other"
+                    ck.violation("C13:reiteration:not-ready-during-rule-evaluation:" + symptom,
                                  dict(buffer=buf.decode(), blocks=parts, command=base + " nr=" + nr, uninterrupted=ref, interrupted=rep,
                                       note="docs/capi.rst says an iterator must not report not-ready once a full pass completed; the property's quantifier includes it"))
     ck.sub("reiteration", executions=n, diverging=bad)
